@@ -14,6 +14,15 @@ CLAIMED = {
              "8 code points from RFC 8442/8492); extraction+driver for the correspondence.",
         technique="Coq proof (vm_compute over regenerated table, lifted by forallb_forall + NoDup) + exhaustive model/implementation correspondence",
         design="3 C14"),
+    "C16": dict(
+        text="Proof: Coq theorems C16 (forall largest < 2^62, length 1..4, truncated value: the model's result read big-endian equals RFC 9000 A.3 "
+             "DecodePacketNumber and the stored largest becomes the maximum), C16_per_space (only the addressed (direction, space) entry changes), C16_nonce "
+             "(nonce = IV xor 12-byte big-endian number, also for the raw 1-4 byte early return) and C16_histories (any history within half a window is recovered), "
+             "all closed under the global context. The hand-written model is tied to QuicSession.get_full_packet_number by correspondence on dense window-boundary "
+             "neighbourhoods up to 2^62 (non-exhaustive).",
+        note="Trusted: Coq kernel; Spec/Rfc9000.v as a transcription of the RFC pseudo-code (twin-checked); the correspondence harness (stub session object) and extraction/driver.",
+        technique="Coq proof (Z arithmetic: mask lemmas + nia) + boundary-dense model/implementation correspondence",
+        design="3 C16"),
 }
 
 NOT_YET = "not claimed yet in this revision: model and theorems under construction (see DESIGN.md section 7)"
